@@ -3500,13 +3500,20 @@ static Node *primary(Token **rest, Token *tok) {
   if (equal(tok, "_Alignof") && equal(tok->next, "(") && is_typename(tok->next->next)) {
     Type *ty = typename(&tok, tok->next->next);
     *rest = skip(tok, ")");
+    // A VLA type records the size and alignment of the pointer that
+    // represents it; its alignment is that of the element type.
+    while (ty->kind == TY_VLA)
+      ty = ty->base;
     return new_ulong(ty->align, tok);
   }
 
   if (equal(tok, "_Alignof")) {
     Node *node = unary(rest, tok->next);
     add_type(node);
-    return new_ulong(node->ty->align, tok);
+    Type *ty = node->ty;
+    while (ty->kind == TY_VLA)
+      ty = ty->base;
+    return new_ulong(ty->align, tok);
   }
 
   if (equal(tok, "_Generic"))
